@@ -120,8 +120,11 @@ func (e *c01Env) podOp1(r *kit.Rand, p *c01Pod, ctl *c01PodCtl) string {
 			gqm.OnPodAdd(g, p.cur)
 			c.Op("OnPodAdd(%s, %s)", g, p)
 		}
-		if g != c01Ghost {
+		if g != c01Ghost && !p.ignored() {
 			p.inMgr, p.group, p.reserved = true, g, false
+		}
+		if p.ignored() {
+			c.Count("terminating_pod_ignored", 1)
 		}
 		return "pod-add"
 	}
@@ -144,7 +147,7 @@ func (e *c01Env) podOp1(r *kit.Rand, p *c01Pod, ctl *c01PodCtl) string {
 			p.build(r, g, false)
 			gqm.OnPodUpdate(g, oldG, p.cur, old)
 			c.Op("OnPodUpdate(%s, %s, %s) [pod not held]", g, oldG, p)
-			if g != c01Ghost {
+			if g != c01Ghost && !p.ignored() {
 				p.inMgr, p.group, p.reserved = true, g, false
 			}
 			return "pod-update-not-held"
@@ -208,6 +211,11 @@ func (e *c01Env) podOp1(r *kit.Rand, p *c01Pod, ctl *c01PodCtl) string {
 		p.build(r, lbl, r.Pct(8))
 		gqm.OnPodUpdate(p.group, p.group, p.cur, old)
 		c.Op("OnPodUpdate(%s, %s, %s) [%s]", p.group, p.group, p, what)
+		if p.ignored() {
+			p.drop() // ElasticQuotaImmediateIgnoreTerminatingPod: the update removes the terminating pod
+			c.Count("terminating_pod_ignored", 1)
+			return "pod-update-terminating-ignored"
+		}
 		if what == "" {
 			return "pod-update-nochange"
 		}
@@ -225,7 +233,7 @@ func (e *c01Env) podOp1(r *kit.Rand, p *c01Pod, ctl *c01PodCtl) string {
 		p.build(r, g, false)
 		gqm.OnPodUpdate(g, oldG, p.cur, old)
 		c.Op("OnPodUpdate(%s, %s, %s) [quota label changed]", g, oldG, p)
-		if g == c01Ghost {
+		if g == c01Ghost || p.ignored() {
 			p.drop()
 		} else {
 			p.group, p.reserved = g, false
@@ -463,7 +471,7 @@ func (e *c01Env) detachFacts(rules *c01QuotaRules, name string) *c01Detach {
 }
 
 // reparentTarget returns a new parent for g (root or a parent group, not the current one, not in
-// g's subtree, depth stays <= 3) or "".
+// g's subtree, depth stays <= the case's limit) or "".
 func (e *c01Env) reparentTarget(r *kit.Rand, g *c01Group) string {
 	h := e.m.height(g.name)
 	var cands []string
@@ -472,7 +480,7 @@ func (e *c01Env) reparentTarget(r *kit.Rand, g *c01Group) string {
 	}
 	for _, n := range e.m.groupNames() {
 		pg := e.m.groups[n]
-		if pg.isParent && n != g.name && n != g.parent && !e.m.inSubtree(n, g.name) && e.m.depth(n)+1+h <= 3 {
+		if pg.isParent && n != g.name && n != g.parent && !e.m.inSubtree(n, g.name) && e.m.depth(n)+1+h <= e.maxDepth {
 			cands = append(cands, n)
 		}
 	}
@@ -494,7 +502,7 @@ func (e *c01Env) quotaOp(r *kit.Rand, rules *c01QuotaRules) (string, *c01Detach)
 		g = m.groups[kit.Pick(r, names)]
 	}
 	setMax := func(g *c01Group) {
-		for d := 0; d < m.nd; d++ {
+		for _, d := range m.dims {
 			if r.Pct(70) {
 				g.max[d] = kit.Pick(r, c01MaxPool[d])
 			}
@@ -509,7 +517,7 @@ func (e *c01Env) quotaOp(r *kit.Rand, rules *c01QuotaRules) (string, *c01Detach)
 		e.applyQuota(g, "set-max")
 		return "quota-set-max", nil
 	case 1:
-		for d := 0; d < m.nd; d++ {
+		for _, d := range m.dims {
 			if r.Pct(70) {
 				g.min[d] = kit.Pick(r, c01ReqPool[d])
 			}
@@ -541,7 +549,7 @@ func (e *c01Env) quotaOp(r *kit.Rand, rules *c01QuotaRules) (string, *c01Detach)
 			if x.isParent && len(m.children(n)) == 0 {
 				cands = append(cands, x)
 			}
-			if !x.isParent && rules.mayBecomeParent(n) && m.depth(n) < 3 {
+			if !x.isParent && rules.mayBecomeParent(n) && m.depth(n) < e.maxDepth {
 				cands = append(cands, x)
 			}
 		}
@@ -600,7 +608,7 @@ func (e *c01Env) quotaOp(r *kit.Rand, rules *c01QuotaRules) (string, *c01Detach)
 		}
 		x := m.groups[kit.Pick(r, cands)]
 		det := e.detachFacts(rules, x.name)
-		err := e.gqm.DeleteQuota(x.object(m.nd))
+		err := e.gqm.DeleteQuota(x.object(m.dims))
 		c.Op("DeleteQuota(%s) (max-limited before=%v) -> err=%v", x, det.limited, err)
 		if err != nil {
 			e.failf("C01/quota/delete-refused", "DeleteQuota(%s) returned %v", x.name, err)
@@ -641,10 +649,10 @@ func (e *c01Env) quotaOp(r *kit.Rand, rules *c01QuotaRules) (string, *c01Detach)
 		} else {
 			ng.name = e.freshName()
 		}
-		// parent chosen with the environment's rule (root or a parent group, depth <= 3)
+		// parent chosen with the environment's rule (root or a parent group, depth within the case's limit)
 		cands := []string{extension.RootQuotaName}
 		for _, n := range names {
-			if m.groups[n].isParent && m.depth(n)+1 <= 3 {
+			if m.groups[n].isParent && m.depth(n)+1 <= e.maxDepth {
 				cands = append(cands, n, n)
 			}
 		}
@@ -657,7 +665,7 @@ func (e *c01Env) quotaOp(r *kit.Rand, rules *c01QuotaRules) (string, *c01Detach)
 		if r.Pct(40) {
 			ng.weight = r.Range(1, 9)
 		}
-		c01GenLimits(r, ng, m.nd)
+		c01GenLimits(r, ng, m.dims)
 		e.applyQuota(ng, "create")
 		return "quota-create", nil
 	case 9:
@@ -667,7 +675,7 @@ func (e *c01Env) quotaOp(r *kit.Rand, rules *c01QuotaRules) (string, *c01Detach)
 		return "quota-noop", nil
 	case 10:
 		ghost := &c01Group{name: c01Ghost, parent: extension.RootQuotaName}
-		err := e.gqm.DeleteQuota(ghost.object(m.nd))
+		err := e.gqm.DeleteQuota(ghost.object(m.dims))
 		c.Op("DeleteQuota(ghost) -> err=%v", err)
 		return "quota-delete-unknown", nil
 	case 11:
